@@ -135,7 +135,7 @@ def cuts_for(n, maxpieces):
 def plan(spec, tier):
     d = S.depth(spec)
     if tier == "quick":
-        return {"cap": 5, "n": 2, "pieces": 2, "full1": True, "reps": ["rec"]}
+        return {"cap": 5 if d <= 2 else 4, "n": 2, "pieces": 2, "full1": True, "reps": ["rec"]}
     if d <= 2:
         return {"cap": 5, "n": 3, "pieces": 3, "full1": True, "reps": ["rec", "df"]}
     return {"cap": 5, "n": 2, "pieces": 3, "full1": True, "reps": ["rec"]}
@@ -232,6 +232,7 @@ def trees(tier):
     t += S.D3_quick() + S.D3flow()
     if tier != "quick":
         t += S.D3()
+    t += [x for x in S.DX() if quantity_bearing(x)]
     seen, out = set(), []
     for s in t:
         k = S.key(s)
